@@ -23,9 +23,9 @@ def classify_race(text):
 PROP = {
     "classify_race": classify_race,
     "id": "C07",
-    "lean_targets": ["WmModel.Props.C05Live", "WmModel.Props.C07Dec", "WmModel.Props.C07Close", "WmModel.Props.C07Locks", "WmModel.Props.C07Term", "WmModel.Props.C05Reg", 'WmModel.Props.C07'],
+    "lean_targets": ["WmModel.Props.C07Prod", "WmModel.Props.C05Live", "WmModel.Props.C07Dec", "WmModel.Props.C07Close", "WmModel.Props.C07Locks", "WmModel.Props.C07Term", "WmModel.Props.C05Reg", 'WmModel.Props.C07'],
     "audit_module": "Audit.C07",
-    "theorems": ["Wm.GcReg.nonblocking_no_deadlock", "Wm.GcReg.blocking_deadlock_needs_nested_publish", "Wm.GcReg.closing_no_deadlock", "Wm.GcReg.d11_has_nested_publish", "Wm.GcReg.removed_only_after_own_cancel_or_close", "Wm.GcReg.subs_change", "Wm.GcDec.dec_never_panics", "Wm.GcDec.dec_close_never_stuck", "Wm.GcDec.dec_quiescent_closed", "Wm.GcDec.dec_steps_bounded", "Wm.GcDec.dec_close_terminates", "Wm.GcDec.dec_after_close", "Wm.GcDec.dec_forwarding", "Wm.GcDec.dec_one_pump_per_channel", "Wm.GcDec.dec_witness", "Wm.GcReg.close_never_stuck", "Wm.GcReg.quiescent_closed", "Wm.GcReg.thread_steps_bounded", "Wm.GcReg.close_terminates", "Wm.GcReg.after_close_returned", "Wm.GcReg.close_dissolves_deadlock", "Wm.GcReg.writer_excludes_readers", "Wm.GcReg.writers_exclusive", "Wm.GcReg.topic_mutex_exclusive", "Wm.GcReg.publish_and_subscribe_regions_exclusive", "Wm.GcReg.after_close_errors", "Wm.GcReg.close_returned_means_closed", "Wm.GcReg.closed_lock_owner", "Wm.GcSub.internal_steps_bounded", "Wm.GcSub.cur_unsettled_at_sendSel", "Wm.GcReg.registry_never_panics", "Wm.GcReg.publish_after_close_errs", "Wm.GcReg.subscribe_after_close_errs", "Wm.GcReg.writer_unique", 'Wm.GcSub.never_panics', 'Wm.GcSub.close_flags_consistent', 'Wm.GcSub.holder_can_leave_when_closing', 'Wm.GcSub.close_progress', 'Wm.GcSub.outchan_closed_at_most_once', 'Wm.GcSub.closed_is_final'],
+    "theorems": ["Wm.GcProd.after_close_channel_closed", "Wm.GcProd.close_witness", "Wm.GcProd.close_waits_for_msub", "Wm.GcReg.nonblocking_no_deadlock", "Wm.GcReg.blocking_deadlock_needs_nested_publish", "Wm.GcReg.closing_no_deadlock", "Wm.GcReg.d11_has_nested_publish", "Wm.GcReg.removed_only_after_own_cancel_or_close", "Wm.GcReg.subs_change", "Wm.GcDec.dec_never_panics", "Wm.GcDec.dec_close_never_stuck", "Wm.GcDec.dec_quiescent_closed", "Wm.GcDec.dec_steps_bounded", "Wm.GcDec.dec_close_terminates", "Wm.GcDec.dec_after_close", "Wm.GcDec.dec_forwarding", "Wm.GcDec.dec_one_pump_per_channel", "Wm.GcDec.dec_witness", "Wm.GcReg.close_never_stuck", "Wm.GcReg.quiescent_closed", "Wm.GcReg.thread_steps_bounded", "Wm.GcReg.close_terminates", "Wm.GcReg.after_close_returned", "Wm.GcReg.close_dissolves_deadlock", "Wm.GcReg.writer_excludes_readers", "Wm.GcReg.writers_exclusive", "Wm.GcReg.topic_mutex_exclusive", "Wm.GcReg.publish_and_subscribe_regions_exclusive", "Wm.GcReg.after_close_errors", "Wm.GcReg.close_returned_means_closed", "Wm.GcReg.closed_lock_owner", "Wm.GcSub.internal_steps_bounded", "Wm.GcSub.cur_unsettled_at_sendSel", "Wm.GcReg.registry_never_panics", "Wm.GcReg.publish_after_close_errs", "Wm.GcReg.subscribe_after_close_errs", "Wm.GcReg.writer_unique", 'Wm.GcSub.never_panics', 'Wm.GcSub.close_flags_consistent', 'Wm.GcSub.holder_can_leave_when_closing', 'Wm.GcSub.close_progress', 'Wm.GcSub.outchan_closed_at_most_once', 'Wm.GcSub.closed_is_final'],
     "tie_theorems": [],
     "harness": "c07",
     "harness_timeout_s": {"quick": 480, "thorough": 2400},
@@ -46,7 +46,7 @@ PROP = {
     ],
     "assumptions": ['data-race freedom and goroutine-leak freedom are runtime facts (race detector, stack census), not theorems'],
     "level_text": 'Proof (Lean 4): (a) subscription model M_sub, every reachable state: the close protocol never panics (no double close, no send on a closed channel), closes the output channel at most once and can always make progress without the consumer once cancel/Close was signalled; (b) registry model M_reg (RWMutex with writer announcement, topic mutexes, closedLock, subscribersWg; any number of Publish/Subscribe/Close calls and unsubscribe goroutines, persistent or not, blocking or not, every interleaving): the registry never panics, a Close call that has not returned is never stuck (close_never_stuck), threads cannot spin (thread_steps_bounded), hence every schedule ends after at most phi(s) steps with every Close returned (close_terminates), and once any Close has returned no unsubscribe goroutine or half-done Subscribe is left, every subscription is removed, the backlog is dropped and Publish/Subscribe fail (after_close_returned, after_close_errors), and a subscription leaves the registry only through its own unsubscribe goroutine, which gets there only after its own context was cancelled or the Pub/Sub is closing (removed_only_after_own_cancel_or_close: cancelling one leaves the others). (c) decorator model M_dec (message/decorator.go: subscribeWg, subscribeWgLock, closing+Once, the pump goroutine; any number of concurrent Subscribe/Close calls, a consumer that may stop reading, any inner-subscriber behaviour C07 allows): never panics (no double close, WaitGroup never negative, Add never concurrent with Wait), Close is never stuck and terminates, after Close every pump finishes on its own and closes its out channel exactly once, nothing is dropped before closing (dec_* theorems). The absence of leftover goroutines in the real process and data races are checked on forced interleavings of the real code.',
-    "level_note": 'Partial: the three models are composed on paper - M_dec assumes of its inner subscriber what the M_reg/M_sub theorems state (Close returns only after every handed-out channel is closed; Subscribe fails afterwards), M_reg abstracts what a sender goroutine does inside a subscription (that is M_sub; the two are composed on paper: M_sub lets senders arrive at any time). All are exercised by the pairwise park/release enumeration with a liveness bound, the goroutine census and -race; recorded hook streams must be traces of M_sub and M_reg.',
+    "level_note": 'M_reg and M_sub are composed in Lean (M_prod, lean/WmModel/GcProd.lean: after_close_channel_closed - once any Close call has returned, the M_sub instance of every subscription is closed, its output channel is closed, nothing panicked). Partial: M_dec is composed with them on paper - it assumes of its inner subscriber what the M_reg/M_sub theorems state (Close returns only after every handed-out channel is closed; Subscribe fails afterwards), M_reg abstracts what a sender goroutine does inside a subscription (that is M_sub; the two are composed on paper: M_sub lets senders arrive at any time). All are exercised by the pairwise park/release enumeration with a liveness bound, the goroutine census and -race; recorded hook streams must be traces of M_sub and M_reg.',
     "technique": "Lean 4 invariant proofs over LTS models of the subscription and the topic registry + trace-inclusion conformance and property monitors on hook-instrumented executions of the real GoChannel",
     "explanation": 'Proof (Lean 4), for every reachable state of the subscription model, that its close protocol never panics (no double close, no send on a closed channel), closes the output channel at most once and can always make progress without the consumer once cancel/Close was signalled; termination of whole-Pub/Sub Close, the decorators, and the absence of leftover goroutines/data races are checked on forced interleavings of the real code.',
 }
